@@ -283,3 +283,17 @@ Proof.
   intros Hg Pm. apply run_calls_seteq; [exact Hg | apply seteq_refl|].
   apply perm_seteq, Permutation_map, Pm.
 Qed.
+
+(* C09's model itself (graphs as two edge lists, histories from the empty graph):
+   permuting the history changes neither edge set *)
+Theorem closure_run_perm (ops ops' : list Closure.op) : Permutation ops ops' ->
+  seteq (Closure.frm (Closure.run ops)) (Closure.frm (Closure.run ops')) /\
+  seteq (Closure.dep (Closure.run ops)) (Closure.dep (Closure.run ops')).
+Proof.
+  intros Pm.
+  assert (E : forall e, In e (map snd ops) <-> In e (map snd ops')).
+  { apply perm_seteq, Permutation_map, Pm. }
+  split.
+  - intros e. rewrite !Closure.run_frm. apply E.
+  - intros [a b]. apply Closure.run_order_irrelevant. exact E.
+Qed.
